@@ -4,15 +4,42 @@
 -/
 import NetflowModel.Preds
 import NetflowModel.Wire
+import NetflowModel.Generated
 namespace Netflow.Preds
 open Netflow
 
-/-- all per-call oracles, evaluated on an answer (impl or model) -/
-def parseOracles (c : Config) (_st : PState) (buf : Bytes) (a : ParseAns) : List (String × Bool) :=
-  [ ("C01", a.outcome == "done" && a.exports.all (fun e => e != some .panic)),
-    ("C02", a.outcome != "done" || decomposes c buf a.pkts) ]
+def names : List (Nat × String) := Generated.protoNames
 
-/-- known-finding class predicates that hold for this call -/
-def parseClasses (_c : Config) (_st : PState) (_buf : Bytes) (_a : ParseAns) : List String := []
+def expVersion : Packet → Nat
+  | .v5 .. => 5 | .v7 .. => 7 | .v9 .. => 9 | .ipfix .. => 10 | .error .. => 0
+
+/-- what the spec says about a call that carried abstract messages -/
+structure SpecView where
+  conformant : Bool
+  pkts : List Spec.Exp
+  defs : Spec.Defs
+
+/-- all per-call oracles, evaluated on an answer (impl or model) -/
+def parseOracles (c : Config) (_st : PState) (buf : Bytes) (a : ParseAns) (sv : Option SpecView) (wExport wCommon : Bool) : List (String × Bool) :=
+  let done := a.outcome == "done"
+  [ ("C01", done && a.exports.all (fun e => e != some .panic)),
+    ("C02", !done || decomposes c buf a.pkts),
+    ("C03", !done || c03ok c names (buf.length + 1) buf a.pkts),
+    ("C08", !done || !wExport || reexportOk c isFixedPkt buf a.pkts a.exports),
+    ("C09", !done || !wExport || reexportOk c isV9Pkt buf a.pkts a.exports),
+    ("C10", !done || !wExport || reexportOk c isIpfixPkt buf a.pkts a.exports),
+    ("C13", !done || !wCommon || commonOk c names a.pkts a.common) ] ++
+  (match sv with
+   | some v =>
+     if v.conformant then
+       let agree (sel : Nat → Bool) : Bool :=
+         done && a.pkts.length == v.pkts.length && (v.pkts.zip a.pkts).all fun p =>
+           match p.1 with
+           | .pkt e => !sel (expVersion e) || e == p.2
+           | .inexpressible ver => !sel ver
+       [("C03spec", agree (fun v => v == 5 || v == 7)), ("C04", agree (· == 9)), ("C05", agree (· == 10)),
+        ("C06", agree (fun v => v == 9 || v == 10))]
+     else []
+   | none => [])
 
 end Netflow.Preds
